@@ -6,6 +6,9 @@ Proved (for the code after the `fix:` commits; the model mirrors adaptor.go's `w
                                     that leaves Content-Length to the server: final status, header fields and body of
                                     the adaptor equal the net/http ResponseWriter reference (1xx codes do not fix the
                                     status; the first final WriteHeader / Write / Flush fixes status + header snapshot).
+  * buffered_body_is_copied         regenerated fact: the pooled writer buffer reaches ctx.Response through SetBody (a copy),
+                                    never through SetBodyRaw/SwapBody/SetBodyStream — the response owns its body once the
+                                    adaptor handler has returned (tied behaviourally by the harness' "overlap" scenario).
   * adaptor_old_*_counterexample    the three repaired defects (1xx became the final status; header changes after the
                                     status was fixed were sent; Write did not fix the status) as theorems about the
                                     behaviour before the fixes.
@@ -21,6 +24,7 @@ the tokenisation of requests (C01/C09), url.ParseRequestURI; interim 1xx respons
 (the statement is about the final response); Hijack, trailers, panicking handlers are outside the statement.
 -/
 import FhVerif.Proofs.Adaptor
+import FhVerif.Gen.Adaptor
 
 namespace Fh.Props.C36
 open Fh Fh.Spec.NH Fh.Model.Adaptor Fh.Proofs.Adaptor
@@ -33,6 +37,14 @@ theorem adaptor_final_eq_reference (p : List HOp) (hp : wellFormed p) : adaptor 
   unfold adaptor reference
   simp only [hi.spn, hi.wpn, Bool.false_eq_true, if_false]
   rw [final_eq _ _ hi]
+
+/-- regenerated structural fact (extract/adaptor_c36.go): the model gives the response its own copy of the handler's bytes
+    (`W.final` returns values); the code does the same as long as the pooled writer buffer `w.responseBody` — returned to
+    the package-level sync.Pool by `releaseWriter` right after the response was filled in — is handed to fasthttp with a
+    COPYING call and never with an aliasing one: after the adaptor handler returns, the response owns its body. -/
+theorem buffered_body_is_copied :
+    "SetBody" ∈ Gen.adaptorCtxCalls ∧ "SetBodyRaw" ∉ Gen.adaptorCtxCalls ∧ "SwapBody" ∉ Gen.adaptorCtxCalls ∧
+    "SetBodyStream" ∉ Gen.adaptorCtxCalls := by decide
 
 /-- in particular no well-formed program panics -/
 theorem adaptor_defined (p : List HOp) (hp : wellFormed p) : (adaptor p).isSome = true := by
